@@ -803,10 +803,11 @@ func detectMemberRenames(p *packages.Package, dir string, base, cur *pkgSyms, re
 		// twice as much as the resemblance of the names
 		bg, okG := base.Bodies[g]
 		bn, okN := curBodies[n]
-		if !okG || !okN {
-			return nameDissim(g, n)
+		nd := nameDissim(g, n)
+		if !okG || !okN || nd <= 0.2 {
+			return nd // no body to compare — or a spelling so close that it decides (a helper split off the same body can resemble the baseline's body more than what is left of it)
 		}
-		return (2*jaccardDissim(bg, bn) + nameDissim(g, n)) / 3
+		return (2*jaccardDissim(bg, bn) + nd) / 3
 	})
 	for n, g := range m {
 		var o types.Object
